@@ -1,143 +1,297 @@
 /-
-The cache-free read-ahead protocol of `bgzf.Reader` (rd > 1) as a labelled transition system
-(bgzf/reader.go: the worker goroutine in NewReader 391–433, nextBlock 616–663, Seek 447–509).  Core Lean only.
+The read-ahead protocol of the cache-free `bgzf.Reader` (rd > 1) as a labelled transition system with an
+executable step function (bgzf/reader.go at HEAD: the worker goroutine of NewReader, nextBlock with its
+synchronous fall-back, the three paths of Seek, Close).  Core Lean only.
 
-Threads: the *worker* goroutine and the *consumer* (the goroutine calling Read/Seek).  Channels: `waiting`
-(idle decompressors; only their number matters), `working` (FIFO of decompressors carrying a block),
-`control` (capacity 1, a redirect base; `none` inside = −1).  The read head (`bg.head`) serialises member
-reads, and what a read returns depends only on the offset, so `nextBlockAt(off)` is one atomic step that
-yields the block `⟨off, chain off⟩`.  A block is its base and its `NextBase` (`none` = the load failed /
-end of file, `NextBase() = −1`).
+Threads: the *worker* goroutine and the *consumer* (the goroutine calling Read/ReadByte/Seek/Close; a
+`bgzf.Reader` is not safe for concurrent use).  Channels: `waiting` (idle decompressors: only their number
+matters), `working` (FIFO of decompressors carrying a block), `control` (capacity 1; a redirect base, `none`
+inside = −1); `close(control)`, `close(waiting)` as flags.  Decompressors are anonymous: there are `rd` of them.
+
+A block is its base and its `NextBase()`: `next = none` (−1) exactly when the load failed (`failAt` labels the
+block with the offset asked for and strips header and data; a load at −1 fails in the underlying Seek and
+leaves the base −1 = `none`).  The file is `chain : Nat → Option Nat` (base ↦ next base; `none`: no member
+starts there — end of file or garbage).  `nextBlockAt(off)` runs under the `head` token and touches no channel,
+so it is one atomic step; it yields `⟨off, chain off⟩`, or, when the label says so and `cfg.faults` allows it,
+the failed block `⟨off, none⟩` (an I/O fault of the underlying reader, any pattern).  Inflating (`readFrom`
+in its own goroutine, awaited by `wait()`) needs no shared resource and is folded into the load.
+
+Consumer script: `next` = one `nextBlock()` call (a Read/ReadByte makes zero or more of them, and none while
+`bg.err` is set, i.e. while the current block is a failed one), `seek off` = `Seek` with `off.File = off`,
+`close`.  Events: API call/return and every member load of the underlying reader (offset, whether the count
+reader had to Seek first, success).
 -/
 namespace Hts.Model.ReadAhead
 
 structure Blk where
-  base : Nat
+  base : Option Nat
   next : Option Nat
-deriving DecidableEq, Repr
+deriving DecidableEq, Repr, Inhabited
 
-/-- The file as the protocol sees it: the base following the member at a base (`none`: no member there). -/
 abbrev Chain := Nat → Option Nat
+
+inductive Op where
+  | next
+  | seek (off : Nat)
+  | close
+  | note (id : Nat)            -- a marker of the test harness between API calls: no effect
+  | nexts                      -- any number of `nextBlock()` calls (a Read whose number of calls is not known)
+deriving DecidableEq, Repr, Inhabited
 
 /-- Program counter and local `next` of the worker goroutine. -/
 inductive Worker where
-  | idle (next : Option Nat)   -- at `for dec := range bg.waiting`
-  | have (next : Option Nat)   -- holds a decompressor, about to look at `control`
-  | push (b : Blk)             -- block read, at `bg.working <- dec`
-deriving DecidableEq, Repr
+  | idle (nx : Option Nat)     -- at `for dec := range bg.waiting`
+  | have (nx : Option Nat)     -- holds a decompressor, at the receive / poll of `control`
+  | load (tgt : Option Nat)    -- holds a decompressor, at `dec.nextBlockAt(next, nil)`
+  | push (b : Blk)             -- block loaded, at `bg.working <- dec`
+  | exited (held : Bool)       -- returned (`close(bg.done)`); `held`: it returned while holding a decompressor
+deriving DecidableEq, Repr, Inhabited
 
 /-- Program counter of the consumer. -/
-inductive Consumer where
-  | idle                        -- between calls
-  | scan (i : Nat)              -- nextBlock: `i` decompressors received from `working` so far
-  | seekSync (off : Nat)        -- Seek: holds a decompressor, about to load `off` synchronously
-  | seekMatch                   -- Seek: the decompressor taken from `working` had the block; at `bg.control <-`
-  | seekSend                    -- Seek: block loaded, `control` drained, at `bg.control <- NextBase`
-  | panicked                    -- `panic("bgzf: unexpected block")`
-deriving DecidableEq, Repr
+inductive Cons where
+  | idle
+  | scan (e : Nat) (i : Nat)   -- nextBlock: waiting for base `e`, `i` decompressors received so far
+  | fetch (e : Nat)            -- nextBlock fall-back: holds the failed decompressor, at `nextBlockAt(base)`
+  | sel (off : Nat)            -- Seek: at `select { case dec = <-bg.waiting: case dec = <-bg.working: }`
+  | sync (off : Nat)           -- Seek: holds a decompressor, at `nextBlockAt(off.File, rs)`
+  | drain (want : Nat)         -- holds a decompressor, at `select { case <-bg.control: default: }`
+  | send (want : Nat)          -- holds a decompressor, at `bg.control <- NextBase(); bg.waiting <- dec`
+  | ret (ok : Bool)            -- the call returns (ok = the current block is a good one)
+  | closeW                     -- Close: `close(bg.control)` done, at `close(bg.waiting)`
+  | join                       -- Close: at `<-bg.done`
+  | closed                     -- Close has returned
+  | panicked                   -- `panic("bgzf: unexpected block")`
+deriving DecidableEq, Repr, Inhabited
 
-structure St where
-  rd : Nat                      -- number of decompressors = cap(waiting) = cap(working)
+inductive Ev where
+  | call (op : Op)
+  | ret (ok : Bool)
+  | ld (off : Option Nat) (seeked : Bool) (ok : Bool)
+deriving DecidableEq, Repr, Inhabited
+
+structure Cfg where
+  rd : Nat
+  chain : Chain
+  script : List Op
+  faults : Bool
+
+structure State where
+  script : List Op
   waiting : Nat
   working : List Blk
   control : Option (Option Nat)
+  ctlClosed : Bool
+  wtClosed : Bool
   worker : Worker
-  cur : Blk                     -- bg.current
-  cons : Consumer
-deriving Repr
+  cur : Blk
+  cons : Cons
+  head : Option Nat            -- what the count reader believes the underlying offset is (none: unknown)
+deriving DecidableEq, Repr, Inhabited
 
-/-- State after `NewReader(r, rd)`, rd > 1: all decompressors idle, the first block current. -/
-def init (chain : Chain) (rd : Nat) : St :=
-  ⟨rd, rd, [], none, .idle (chain 0), ⟨0, chain 0⟩, .idle⟩
+/-- State after `NewReader(r, rd)` succeeded: all decompressors idle, the first block current. -/
+def init (cfg : Cfg) : State :=
+  { script := cfg.script, waiting := cfg.rd, working := [], control := none, ctlClosed := false,
+    wtClosed := false, worker := .idle (cfg.chain 0), cur := ⟨some 0, cfg.chain 0⟩, cons := .idle,
+    head := cfg.chain 0 }
 
 inductive Label where
-  | wTake | wRedirect | wRead | wPush          -- worker
-  | cNext | cRecv                               -- consumer: nextBlock
-  | cSeekFast | cSeekWaiting | cSeekWorking | cSeekMatchSend | cSeekSync | cSeekSend  -- consumer: Seek
+  | api (choice : Bool) (fail : Bool)   -- consumer; `choice`: the select of Seek takes from `working`
+  | wk (fail : Bool)                    -- worker; `fail`: this load hits an I/O fault
+deriving DecidableEq, Repr, Inhabited
+
+/-- `nextBlockAt(tgt)`: the block, the new head offset, the event. -/
+def doLoad (cfg : Cfg) (s : State) (tgt : Option Nat) (fail : Bool) : Option (Blk × Option Nat × Ev) :=
+  match tgt with
+  | none => if fail then none else some (⟨none, none⟩, s.head, .ld none true false)
+  | some t =>
+    let sk := decide (s.head ≠ some t)
+    if fail then
+      if cfg.faults then some (⟨some t, none⟩, none, .ld (some t) sk false) else none
+    else
+      match cfg.chain t with
+      | some nx => some (⟨some t, some nx⟩, some nx, .ld (some t) sk true)
+      | none => some (⟨some t, none⟩, some t, .ld (some t) sk false)
+
+def good (b : Blk) : Bool := b.next.isSome
+
+def apiStep (cfg : Cfg) (s : State) (choice fail : Bool) : Option (Option Ev × State) :=
+  match s.cons with
+  | .idle =>
+    if fail then none else
+    match s.script with
+    | [] => none
+    | .nexts :: rest =>
+      -- `choice`: the Read is over; otherwise one more nextBlock (only while the current block is a good one)
+      if choice then some (none, { s with script := rest })
+      else match s.cur.next with
+        | some e => some (none, { s with cons := .scan e 0 })
+        | none => none
+    | .next :: rest =>
+      if choice then none else
+      match s.cur.next with
+      | some e => some (some (.call .next), { s with script := rest, cons := .scan e 0 })
+      | none => some (some (.call .next), { s with script := rest, cons := .ret false })
+    | .seek off :: rest =>
+      if choice then none else
+      if s.cur.base = some off ∧ good s.cur then
+        some (some (.call (.seek off)), { s with script := rest, cons := .ret true })
+      else some (some (.call (.seek off)), { s with script := rest, cons := .sel off })
+    | .close :: rest =>
+      if choice then none else
+      some (some (.call .close), { s with script := rest, ctlClosed := true, cons := .closeW })
+    | .note id :: rest =>
+      if choice then none else some (some (.call (.note id)), { s with script := rest })
+  | .scan e i =>
+    if choice || fail then none else
+    match s.working with
+    | [] => none
+    | b :: rest =>
+      if b.base = some e then
+        some (none, { s with working := rest, waiting := s.waiting + 1, cur := b, cons := .ret (good b) })
+      else if b.next = none then
+        some (none, { s with working := rest, cons := .fetch e })
+      else if i + 1 = cfg.rd then
+        some (none, { s with working := rest, waiting := s.waiting + 1, cons := .panicked })
+      else some (none, { s with working := rest, waiting := s.waiting + 1, cons := .scan e (i + 1) })
+  | .fetch e =>
+    if choice then none else
+    match doLoad cfg s (some e) fail with
+    | some (b, h, ev) => some (some ev, { s with cur := b, head := h, cons := .drain e })
+    | none => none
+  | .sel off =>
+    if fail then none else
+    if choice then
+      match s.working with
+      | [] => none
+      | b :: rest =>
+        if good b ∧ b.base = some off then some (none, { s with working := rest, cur := b, cons := .drain off })
+        else some (none, { s with working := rest, cons := .sync off })
+    else if 0 < s.waiting then some (none, { s with waiting := s.waiting - 1, cons := .sync off })
+    else none
+  | .sync off =>
+    if choice then none else
+    match doLoad cfg s (some off) fail with
+    | some (b, h, ev) => some (some ev, { s with cur := b, head := h, cons := .drain off })
+    | none => none
+  | .drain w =>
+    if choice || fail then none else some (none, { s with control := none, cons := .send w })
+  | .send _ =>
+    if choice || fail then none else
+    match s.control with
+    | none => some (none, { s with control := some s.cur.next, waiting := s.waiting + 1,
+                                   cons := .ret (good s.cur) })
+    | some _ => none
+  | .ret ok => if choice || fail then none else some (some (.ret ok), { s with cons := .idle })
+  | .closeW => if choice || fail then none else some (none, { s with wtClosed := true, cons := .join })
+  | .join =>
+    if choice || fail then none else
+    match s.worker with
+    | .exited _ => some (some (.ret true), { s with cons := .closed })
+    | _ => none
+  | .closed => none
+  | .panicked => none
+
+def wkStep (cfg : Cfg) (s : State) (fail : Bool) : Option (Option Ev × State) :=
+  match s.worker with
+  | .idle nx =>
+    if fail then none
+    else if 0 < s.waiting then some (none, { s with waiting := s.waiting - 1, worker := .have nx })
+    else if s.wtClosed then some (none, { s with worker := .exited false })
+    else none
+  | .have nx =>
+    if fail then none else
+    match s.control with
+    | some v =>
+      if nx = none ∧ v = none then some (none, { s with control := none })
+      else some (none, { s with control := none, worker := .load v })
+    | none =>
+      if s.ctlClosed then some (none, { s with worker := .exited true })
+      else match nx with
+        | some b => some (none, { s with worker := .load (some b) })
+        | none => none
+  | .load tgt =>
+    match doLoad cfg s tgt fail with
+    | some (b, h, ev) => some (some ev, { s with head := h, worker := .push b })
+    | none => none
+  | .push b =>
+    if fail then none
+    else if s.working.length < cfg.rd then
+      some (none, { s with working := s.working ++ [b], worker := .idle b.next })
+    else none
+  | .exited _ => none
+
+def next (cfg : Cfg) (s : State) : Label → Option (Option Ev × State)
+  | .api c f => apiStep cfg s c f
+  | .wk f => wkStep cfg s f
+
+def Step (cfg : Cfg) (s t : State) : Prop := ∃ l e, next cfg s l = some (e, t)
+
+inductive Reachable (cfg : Cfg) : State → Prop where
+  | init : Reachable cfg (init cfg)
+  | step {s t} : Reachable cfg s → Step cfg s t → Reachable cfg t
+
+/-- runs with their observable trace, newest event first -/
+inductive Run (cfg : Cfg) : List Ev → State → Prop where
+  | init : Run cfg [] (init cfg)
+  | step {tr s l e t} : Run cfg tr s → next cfg s l = some (e, t) → Run cfg (e.toList ++ tr) t
+
+def labels : List Label :=
+  [.api false false, .api true false, .api false true, .wk false, .wk true]
+
+/-- all successors, executable -/
+def succs (cfg : Cfg) (s : State) : List (Label × Option Ev × State) :=
+  labels.filterMap fun l => (next cfg s l).map fun p => (l, p.1, p.2)
+
+def enabled (cfg : Cfg) (s : State) : Bool := !(succs cfg s).isEmpty
+
+/-- The consumer has run its whole script and returned from the last call (or from Close). -/
+def ApiDone (s : State) : Prop := (s.cons = .idle ∧ s.script = []) ∨ s.cons = .closed
+
+instance (s : State) : Decidable (ApiDone s) := by unfold ApiDone; exact inferInstance
+
+def runLabels (cfg : Cfg) : State → List Label → Option State
+  | s, [] => some s
+  | s, l :: ls => match next cfg s l with
+    | some (_, t) => runLabels cfg t ls
+    | none => none
+
+/-! ### Derived views used by the invariants -/
+
+/-- The element of the delivery stream the worker is committed to. -/
+inductive Slot where
+  | blk (b : Blk)
+  | tgt (t : Option Nat)
 deriving DecidableEq, Repr
 
-def Label.isSeek : Label → Bool
-  | .cSeekFast | .cSeekWaiting | .cSeekWorking | .cSeekMatchSend | .cSeekSync | .cSeekSend => true
-  | _ => false
-
-/-- One step of one thread. -/
-inductive Step (chain : Chain) : St → Label → St → Prop where
-  /-- `dec := <-bg.waiting` -/
-  | wTake (s : St) (nx : Option Nat) (h1 : s.worker = .idle nx) (h2 : 0 < s.waiting) :
-      Step chain s .wTake { s with waiting := s.waiting - 1, worker := .have nx }
-  /-- `next, open = <-bg.control` (blocking when next < 0, polling otherwise), then `nextBlockAt(next)`;
-  a redirect to −1 (sent by a Seek whose load failed) makes `nextBlockAt` fail: an error block is sent on. -/
-  | wRedirect (s : St) (nx : Option Nat) (v : Option Nat) (h1 : s.worker = .have nx) (h2 : s.control = some v) :
-      Step chain s .wRedirect
-        (match v with
-         | some b => { s with control := none, worker := .push ⟨b, chain b⟩ }
-         | none => { s with control := none, worker := .push ⟨0, none⟩ })
-  /-- `default:` branch of the poll, then `nextBlockAt(next)` -/
-  | wRead (s : St) (b : Nat) (h1 : s.worker = .have (some b)) (h2 : s.control = none) :
-      Step chain s .wRead { s with worker := .push ⟨b, chain b⟩ }
-  /-- `next = dec.blk.NextBase(); bg.working <- dec` -/
-  | wPush (s : St) (b : Blk) (h1 : s.worker = .push b) (h2 : s.working.length < s.rd) :
-      Step chain s .wPush { s with working := s.working ++ [b], worker := .idle b.next }
-  /-- `nextBlock()` is entered (the current block has a next base) -/
-  | cNext (s : St) (e : Nat) (h1 : s.cons = .idle) (h2 : s.cur.next = some e) :
-      Step chain s .cNext { s with cons := .scan 0 }
-  /-- `dec := <-bg.working; bg.current, err = dec.wait(); bg.waiting <- dec; if Base() == base {break}`,
-  and the `panic` when the loop bound is exhausted -/
-  | cRecv (s : St) (i : Nat) (b : Blk) (rest : List Blk) (h1 : s.cons = .scan i) (h2 : s.working = b :: rest)
-      (h3 : i < s.rd) :
-      Step chain s .cRecv
-        (if s.cur.next = some b.base then
-           { s with working := rest, waiting := s.waiting + 1, cur := b, cons := .idle }
-         else if i + 1 = s.rd then
-           { s with working := rest, waiting := s.waiting + 1, cons := .panicked }
-         else { s with working := rest, waiting := s.waiting + 1, cons := .scan (i + 1) })
-  /-- Seek inside the current block -/
-  | cSeekFast (s : St) (h1 : s.cons = .idle) : Step chain s .cSeekFast s
-  /-- Seek: `case dec = <-bg.waiting` -/
-  | cSeekWaiting (s : St) (off : Nat) (h1 : s.cons = .idle) (h2 : 0 < s.waiting) :
-      Step chain s .cSeekWaiting { s with waiting := s.waiting - 1, cons := .seekSync off }
-  /-- Seek: `case dec = <-bg.working` -/
-  | cSeekWorking (s : St) (off : Nat) (b : Blk) (rest : List Blk) (h1 : s.cons = .idle)
-      (h2 : s.working = b :: rest) :
-      Step chain s .cSeekWorking
-        (if b.next ≠ none ∧ b.base = off then { s with working := rest, cur := b, cons := .seekMatch }
-         else { s with working := rest, cons := .seekSync off })
-  /-- Seek: `bg.control <- bg.current.NextBase(); bg.waiting <- dec` (blocks while `control` is full) -/
-  | cSeekMatchSend (s : St) (h1 : s.cons = .seekMatch) (h2 : s.control = none) :
-      Step chain s .cSeekMatchSend
-        { s with control := some s.cur.next, waiting := s.waiting + 1, cons := .idle }
-  /-- Seek: synchronous `nextBlockAt(off)`, then `select { case <-bg.control: default: }` -/
-  | cSeekSync (s : St) (off : Nat) (h1 : s.cons = .seekSync off) :
-      Step chain s .cSeekSync { s with cur := ⟨off, chain off⟩, control := none, cons := .seekSend }
-  /-- Seek: `bg.control <- bg.current.NextBase(); bg.waiting <- dec` -/
-  | cSeekSend (s : St) (h1 : s.cons = .seekSend) (h2 : s.control = none) :
-      Step chain s .cSeekSend
-        { s with control := some s.cur.next, waiting := s.waiting + 1, cons := .idle }
-
-/-- States reachable from `init` by steps whose labels satisfy `allowed`. -/
-inductive Reach (chain : Chain) (rd : Nat) (allowed : Label → Bool) : St → Prop where
-  | init : Reach chain rd allowed (init chain rd)
-  | step (s t : St) (l : Label) (h : Reach chain rd allowed s) (hl : allowed l = true)
-      (hs : Step chain s l t) : Reach chain rd allowed t
-
-/-- The blocks in flight, in delivery order: `working`, then the block the worker is about to send. -/
-def Worker.pending : Worker → List Blk
-  | .push b => [b]
+def Worker.committed : Worker → List Slot
+  | .load t => [.tgt t]
+  | .push b => [.blk b]
   | _ => []
 
-def pipeline (s : St) : List Blk := s.working ++ s.worker.pending
-
-/-- The base the worker will read next (`none` = −1). -/
-def Worker.next : Worker → Option Nat
+/-- What the worker reads after its committed element, if nothing redirects it (`none`: it waits). -/
+def Worker.natural : Worker → Option Nat
   | .idle nx => nx
   | .have nx => nx
   | .push b => b.next
+  | _ => none
 
-def wnext (s : St) : Option Nat := s.worker.next
+/-- Decompressors held by the worker. -/
+def Worker.holds : Worker → Nat
+  | .have _ => 1
+  | .load _ => 1
+  | .push _ => 1
+  | .exited true => 1
+  | _ => 0
 
-/-- Decompressors held by the threads. -/
-def held (s : St) : Nat :=
-  (match s.worker with | .idle _ => 0 | _ => 1) +
-  (match s.cons with | .seekSync _ | .seekMatch | .seekSend => 1 | _ => 0)
+/-- Decompressors held by the consumer. -/
+def Cons.holds : Cons → Nat
+  | .fetch _ => 1
+  | .sync _ => 1
+  | .drain _ => 1
+  | .send _ => 1
+  | _ => 0
+
+/-- Blocks and committed loads in delivery order. -/
+def stream (s : State) : List Slot := s.working.map .blk ++ s.worker.committed
 
 end Hts.Model.ReadAhead
